@@ -40,7 +40,7 @@ def payoutBig (requested bank total : Nat) : Nat :=
 structure TxKey where
   idx : Nat
   hash : String
-  deriving Repr, DecidableEq, BEq
+  deriving Repr, DecidableEq
 
 /-- order used by `transactionid.SortTxIDS`: by hash, then by index. -/
 def TxKey.lt (a b : TxKey) : Bool :=
